@@ -66,7 +66,7 @@ func (C08) New() any { return &C08Scenario{} }
 
 func (C08) Gen(t *tape.Tape, tier string) any {
 	sc := &C08Scenario{}
-	shapes := []gen.Shape{gen.ShapeFlat, gen.ShapeNested, gen.ShapeLogical}
+	shapes := []gen.Shape{gen.ShapeFlat, gen.ShapeNested, gen.ShapeLogical, gen.ShapeDyn, gen.ShapeGen}
 	sc.Plan = GenWritePlan(t, shapes, 1500)
 	if sc.Plan.NRows < 2 {
 		sc.Plan.NRows = 2 + t.Draw(50)
@@ -82,12 +82,17 @@ func (C08) Gen(t *tape.Tape, tier string) any {
 	}
 	sc.RowGroup = t.Draw(4)
 	sc.Column = t.Draw(16)
-	n := int64(sc.Plan.NRows)
-	nops := t.Range(3, 30)
+	sc.Ops = genSeekOps(t, int64(sc.Plan.NRows), t.Range(3, 30))
+	return sc
+}
+
+// genSeekOps draws a seek/read history over n rows.
+func genSeekOps(t *tape.Tape, n int64, nops int) []SeekOp {
+	var ops []SeekOp
 	for i := 0; i < nops; i++ {
 		switch t.Weighted(5, 5, 1, 1) {
 		case 3:
-			sc.Ops = append(sc.Ops, SeekOp{Op: "reset"})
+			ops = append(ops, SeekOp{Op: "reset"})
 		case 0:
 			var k int64
 			switch t.Weighted(4, 1, 1, 2) {
@@ -98,8 +103,8 @@ func (C08) Gen(t *tape.Tape, tier string) any {
 			case 2:
 				k = n
 			case 3: // near the previous target
-				if len(sc.Ops) > 0 {
-					k = sc.Ops[len(sc.Ops)-1].K + int64(t.Range(-20, 20))
+				if len(ops) > 0 {
+					k = ops[len(ops)-1].K + int64(t.Range(-20, 20))
 				}
 				if k < 0 {
 					k = 0
@@ -108,14 +113,14 @@ func (C08) Gen(t *tape.Tape, tier string) any {
 					k = n
 				}
 			}
-			sc.Ops = append(sc.Ops, SeekOp{Op: "seek", K: k})
+			ops = append(ops, SeekOp{Op: "seek", K: k})
 		case 1:
-			sc.Ops = append(sc.Ops, SeekOp{Op: "read", N: []int{1, 2, 7, 20, 45, 64, 100, 300, 0}[t.Draw(9)]})
+			ops = append(ops, SeekOp{Op: "read", N: []int{1, 2, 7, 20, 45, 64, 100, 300, 0}[t.Draw(9)]})
 		case 2:
-			sc.Ops = append(sc.Ops, SeekOp{Op: "index"})
+			ops = append(ops, SeekOp{Op: "index"})
 		}
 	}
-	return sc
+	return ops
 }
 
 func (C08) Run(s any, c *core.Ctx) core.Outcome {
